@@ -2,6 +2,7 @@
 #![allow(clippy::type_complexity)]
 
 mod common;
+mod compute;
 mod crash;
 mod props;
 mod rawmodel;
@@ -37,6 +38,7 @@ fn main() {
         "C09" => main_for::<props::c09::P>(rest),
         "C11" => main_for::<props::c11::P>(rest),
         "C10" => main_for::<props::c10::P>(rest),
+        "C06" => main_for::<props::c06::P>(rest),
         "C07" => main_for::<props::c07::P>(rest),
         "C08" => main_for::<props::c08::P>(rest),
         "C13" => main_for::<props::c13::P>(rest),
